@@ -197,6 +197,8 @@ def disjointness(cx):
     for k, m, s in o:
         if m != "insert":
             continue
+        if any(l[0] == "is" and l[2] is False and l[1][0] == "call" and l[1][1] == cx.sfx("IncrChangeMap::contains") for l in cx.guard_lits(s)):
+            continue   # the untracked-id path (checked below with the initialising helper)
         def in_out(want):
             return lambda l: l[0] == "is" and l[2] is want and l[1][0] == "call" and l[1][1].endswith("::contains") and contains(fld("Configuration.outgoing"), l[1])
         want = (k == "learners_next")
@@ -211,17 +213,38 @@ def disjointness(cx):
     pushes = [s for sp, s in cx.prog.calls_out[rm.key] if s.kind == "call" and sp.endswith("Vec::push")]
     ok = len(pushes) == 1 and g.guarded(pushes[0].at, lambda lits: any(l[0] == "is" and l[2] is False and l[1][0] == "call" and l[1][1].endswith("::contains") and contains(fld("Configuration.outgoing"), l[1]) for l in lits))[0]
     cx.check(ok, "remove:keep-progress", "remove drops the progress only if the node is not an outgoing voter (it still votes in the joint config)")
+    # unknown ids: make_voter adds a voter, make_learner a learner, both add a progress entry -- in the operation
+    # itself or in the initialising helper it calls (where exactly the insertion is written does not matter)
     ip = cx.fn("Changer::init_progress")
-    o = ops(ip)
-    got = {(k, m) for k, m, s in o}
-    cx.check(got == {("incoming", "insert"), ("learners", "insert")}, "init_progress", "a new node becomes either a voter or a learner (found %s)" % sorted(got))
-    pushes = [s for sp, s in cx.prog.calls_out[ip.key] if s.kind == "call" and sp.endswith("Vec::push")]
-    cx.check(len(pushes) == 1 and contains(("enum", "raft::confchange::changer::MapChangeType", "Add"), call_args(cx, pushes[0])[1]), "init_progress:add", "a new node gets a progress entry")
-    # unknown ids: make_voter/make_learner initialise, remove ignores
-    for f, name in ((mv, "make_voter"), (ml, "make_learner")):
+    oip = ops(ip)
+    ip_push = [s for sp, s in cx.prog.calls_out[ip.key] if s.kind == "call" and sp.endswith("Vec::push") and contains(("enum", "raft::confchange::changer::MapChangeType", "Add"), call_args(cx, s)[1])]
+    for f, name, field in ((mv, "make_voter", "incoming"), (ml, "make_learner", "learners")):
+        g = cx.pg(f)
         cs = [s for sp, s in cx.prog.calls_out[f.key] if s.kind == "call" and sp == cx.sfx("Changer::init_progress")]
-        ok = len(cs) == 1 and cx.pg(f).guarded(cs[0].at, lambda lits: any(l[0] == "is" and l[2] is False and l[1][0] == "call" and l[1][1] == cx.sfx("IncrChangeMap::contains") for l in lits))[0]
+        untracked = lambda lits: any(l[0] == "is" and l[2] is False and l[1][0] == "call" and l[1][1] == cx.sfx("IncrChangeMap::contains") for l in lits)
+        ok = len(cs) == 1 and g.guarded(cs[0].at, untracked)[0]
         cx.check(ok, name + ":unknown", "%s initialises progress exactly for ids not yet tracked" % name)
+        if len(cs) != 1:
+            continue
+        c = cs[0]
+        args = call_args(cx, c)
+        # what the helper does for THIS call (its branches on a bool parameter are resolved with the constant passed)
+        active = []
+        for k, m, s in oip:
+            keep = True
+            for l in cx.guard_lits(s):
+                if l[0] == "is" and l[1][0] == "param" and ip.body.local_ty(l[1][1]) == "bool":
+                    av = args[l[1][1] - 1]
+                    if av[0] == "bool" and av[1] is not l[2]:
+                        keep = False
+            if keep:
+                active.append((k, m))
+        own = [(k, m) for k, m, s in ops(f) if untracked(cx.guard_lits(s))]
+        eff = set(active) | set(own)
+        ins = {k for k, m in eff if m == "insert"}
+        cx.check(ins == {field}, name + ":unknown:member", "%s of an untracked id makes it exactly a member of `%s` (found inserts into %s)" % (name, field, sorted(ins)), c)
+        own_push = [s for sp, s in cx.prog.calls_out[f.key] if s.kind == "call" and sp.endswith("Vec::push") and contains(("enum", "raft::confchange::changer::MapChangeType", "Add"), call_args(cx, s)[1]) and untracked(cx.guard_lits(s))]
+        cx.check(len(ip_push) + len(own_push) == 1, name + ":unknown:progress", "%s of an untracked id adds one progress entry" % name, c)
 
 
 @obligation("CHANGER.progress_sync", ["C12"], floor=2, kind="effect shape",
